@@ -162,6 +162,7 @@ fn parent(id: &str, tier: Tier) -> i32 {
             });
             e.evaluations += sr.evaluations;
             e.nontrivial += sr.nontrivial;
+            e.worker_s += sr.worker_s;
         }
         total.violations.extend(s.violations);
         total.notes.extend(s.notes);
